@@ -223,7 +223,8 @@ Definition slash_assets (s : st) (e : env) (q : sprm) (f : Z) : outcome (st * ex
       else
         let p := Z.min (dec_of_int 1) (dec_quo value_usd total) in
         let '(recs', exu) :=
-          if q_event q <? v_height e then walk_recs p (q_op q) (q_event q) (s_recs s) else (s_recs s, []) in
+          (* `if parameter.SlashEventHeight <= ctx.BlockHeight()` (repaired: was `<`) *)
+          if q_event q <=? v_height e then walk_recs p (q_op q) (q_event q) (s_recs s) else (s_recs s, []) in
         let '(pools', exp) := walk_pools p (q_op q) (s_slists s) (s_pools s) in
         let delegs' := map (clear_deleg p (q_op q) (s_slists s) (s_pools s)) (s_delegs s) in
         let slists' := filter (keep_list p (q_op q) (s_slists s) (s_pools s)) (s_slists s) in
